@@ -189,13 +189,15 @@ impl Check for Extremes {
 }
 
 pub const ALPHABET: [f64; 7] = [f64::NAN, f64::NEG_INFINITY, -2.5, -0.0, 0.0, 3.0, f64::INFINITY];
+/// a NaN with the sign bit set (what 0.0/0.0 produces on x86) — sorts below -inf in total orders
+pub const NEG_NAN: f64 = f64::from_bits(0xfff8_0000_0000_0000);
 
 pub fn value() -> impl Strategy<Value = f64> {
     prop_oneof![
         3 => proptest::sample::select(ALPHABET.to_vec()),
         4 => -1e3..1e3f64,
         2 => (-300.0..300.0f64, any::<bool>()).prop_map(|(e, s)| if s { -10f64.powf(e) } else { 10f64.powf(e) }),
-        1 => proptest::sample::select(vec![f64::MAX, f64::MIN, f64::MIN_POSITIVE, -f64::MIN_POSITIVE, 5e-324, -5e-324]),
+        1 => proptest::sample::select(vec![f64::MAX, f64::MIN, f64::MIN_POSITIVE, -f64::MIN_POSITIVE, 5e-324, -5e-324, NEG_NAN, NEG_NAN, f64::from_bits(0x7ff0_0000_0000_0001), f64::from_bits(0xfff0_0000_dead_beef)]),
     ]
 }
 
@@ -222,6 +224,25 @@ pub fn run(cx: &Ctx) {
         let (xs, cuts, merges) = &cases[(i / 6) as usize];
         Some(MM { xs: xs.clone(), cuts: cuts.clone(), merges: merges.clone(), path: (i % 6) as u8 })
     }, "all sequences of length 0..=5 over a 7-symbol alphabet x all chunkings into <= 3 parts x both merge orders x 6 construction paths");
+    cx.label("exhaustive-negative-nan");
+    {
+        let alpha2: [f64; 6] = [NEG_NAN, f64::NAN, f64::NEG_INFINITY, -1.0, 2.0, f64::INFINITY];
+        let mut cases2: Vec<(Vec<f64>, Vec<usize>, Vec<usize>)> = Vec::new();
+        for l in 0..=4usize {
+            for i in 0..6u64.pow(l as u32) {
+                let xs = super::c05::alphabet_stream(&alpha2, l, i);
+                cases2.push((xs.clone(), vec![], vec![]));
+                for a in 0..=l {
+                    cases2.push((xs.clone(), vec![a], vec![0]));
+                }
+            }
+        }
+        let total2 = cases2.len() as u64 * 6;
+        cx.run_enum(&Extremes, total2, |i| {
+            let (xs, cuts, merges) = &cases2[(i / 6) as usize];
+            Some(MM { xs: xs.clone(), cuts: cuts.clone(), merges: merges.clone(), path: (i % 6) as u8 })
+        }, "all sequences of length 0..=4 over {-NaN (sign bit set), NaN, -inf, -1, 2, +inf} x all 2-chunkings x 6 construction paths");
+    }
     cx.label("generated");
     let strat = || {
         (vec(value(), 0..200), prop_oneof![1 => Just(None), 2 => (gen::cut_mode(), gen::tree_mode()).prop_map(Some)], 0u8..6, any::<u8>()).prop_map(|(mut xs, tree, path, perm)| {
